@@ -24,6 +24,17 @@ MERGE_TWINS = [
     (("or", ("parse", 'platform_release < "5.10"'), ("parse", 'platform_release > "5.10"')), ("or", ("parse", 'platform_release < "5.10.0"'), ("parse", 'platform_release > "5.10.0"'))),
     (("and", ("parse", 'python_full_version >= "3.8"'), ("parse", 'python_full_version < "3.9"')), ("and", ("parse", 'python_full_version >= "3.8.0"'), ("parse", 'python_full_version < "3.9.0"'))),
     (("or", ("parse", 'python_full_version < "3.6"'), ("parse", 'python_full_version >= "3.7"')), ("or", ("parse", 'python_full_version < "3.6.0"'), ("parse", 'python_full_version >= "3.7.0"'))),
+    # an operand re-rendered by the library (zero-padded value, view spelled as the operand it came from) against the same atom parsed from text
+    (("and", ("and", ("parse", 'python_version >= "3.7"'), ("parse", 'python_full_version >= "3.8"')), ("parse", 'python_full_version < "3.9"')),
+     ("and", ("parse", 'python_full_version >= "3.8.0"'), ("parse", 'python_full_version < "3.9"'))),
+    (("or", ("and", ("parse", 'python_version >= "3.7"'), ("parse", 'python_full_version >= "3.8"')), ("parse", 'python_full_version < "3.7"')),
+     ("or", ("parse", 'python_full_version >= "3.8.0"'), ("parse", 'python_full_version < "3.7"'))),
+    (("and", ("or", ("parse", 'python_version <= "3.7"'), ("parse", 'python_full_version < "3.9"')), ("parse", 'python_full_version >= "3.8"')),
+     ("and", ("parse", 'python_full_version < "3.9.0"'), ("parse", 'python_full_version >= "3.8"'))),
+    # an atom whose specifier view was already computed (by a same-variable merge) and is then used in a python_version x python_full_version merge
+    (("and", ("parse", 'python_version > "3.7"'), ("parse", 'python_version < "3.10"')), ("or", ("parse", 'python_version > "3.7"'), ("parse", 'python_full_version >= "3.7.3"'))),
+    (("and", ("parse", 'python_version <= "3.7"'), ("parse", 'python_version > "3.5"')), ("and", ("parse", 'python_version <= "3.7"'), ("parse", 'python_full_version >= "3.7.3"'))),
+    (("or", ("parse", 'python_version == "3.7"'), ("parse", 'python_version == "3.9"')), ("and", ("parse", 'python_version == "3.7"'), ("parse", 'python_full_version >= "3.7.3"'))),
     (("and", ("parse", 'os_name == "a" or os_name == "b"'), ("parse", 'python_version >= "3.8" or sys_platform == "y"')),
      ("and", ("parse", 'os_name == "b" or os_name == "a"'), ("parse", 'python_version >= "3.8" or sys_platform == "y"'))),
     (("or", ("parse", 'os_name != "a" and os_name != "b"'), ("parse", 'python_version >= "3.8" and sys_platform == "y"')),
